@@ -3,10 +3,23 @@ package rtinputs
 import (
 	"verif/harness/mbt"
 	"verif/harness/props/corpus"
+	"verif/harness/props/modgen"
 )
 
-// Families returns the inputs generated from the feature-matrix specifications (Modules.tla).
-func Families(rep *mbt.Report, tier string) []corpus.Input { return nil }
+// Families returns the inputs generated from the feature-matrix specification Modules.tla.
+func Families(rep *mbt.Report, tier string) []corpus.Input {
+	var out []corpus.Input
+	seen := map[string]bool{}
+	for _, v := range modgen.Generate(rep, "*") {
+		t := v.Text()
+		if seen[t] {
+			continue
+		}
+		seen[t] = true
+		out = append(out, corpus.Input{Name: v.Label(), Origin: "tlc:Modules/" + v.Fam, Text: t, Construct: v.Construct(), Unrepresentable: !v.Repr})
+	}
+	return out
+}
 
 // Spellings returns inputs in non-canonical spellings (C02 only: LLVM does not arbitrate all of them).
 func Spellings(rep *mbt.Report, tier string) []corpus.Input { return nil }
